@@ -263,6 +263,33 @@ impl Property for C10 {
 
         let reference = &statuses[0];
         let mut violation = None;
+        // what the file declares as metadata must be what is read, wherever the lines stand (structured inputs only)
+        if !scn.base.lines.is_empty() || !scn.base.meta.is_empty() {
+            if let Status::Ok(flat, ..) = reference {
+                let mut declared: Vec<(String, String)> = scn
+                    .base
+                    .meta
+                    .iter()
+                    .map(|(k, v)| {
+                        let key = match k.as_str() {
+                            "Localizacion" => "CTE_LOCALIZACION",
+                            "Area_ref" => "CTE_AREAREF",
+                            "kexp" => "CTE_KEXP",
+                            other => other,
+                        };
+                        (key.to_string(), v.trim().to_string())
+                    })
+                    .collect();
+                declared.sort();
+                if declared != flat.meta {
+                    violation = Some(Violation::new(
+                        "layout_dependence",
+                        "declared-metadata",
+                        format!("the file declares the metadata {:?} but {:?} are read", declared, flat.meta),
+                    ));
+                }
+            }
+        }
         for (i, st) in statuses.iter().enumerate().skip(1) {
             if violation.is_none() {
                 violation = compare_status(
